@@ -184,3 +184,20 @@ V("C12-k-add-before-commit", "C12", "C12.4", (DS, "                self.counter 
    "                if events is not None or self.__dense_output:\n                    __pre_length = len(self.__sol)\n                    __t_interp, __y_interp = self.get_step_interpolant()\n                    self.__sol.add_interpolant(__t_interp, __y_interp)\n                for i in callback:\n                    i(self)\n                self.counter += 1\n\n                if False:\n                    pass\n"))
 V("C12-s-raise-from", "C12", "silent", (DS, "            new_e.__cause__ = e\n            self.__int_status = new_e\n            raise new_e", "            self.__int_status = new_e\n            raise new_e from e"))
 V("C12-s-bare-raise", "C12", "silent", (DS, "            self.__int_status = e\n            raise e\n        except Exception as e:", "            self.__int_status = e\n            raise\n        except Exception as e:"))
+
+# ---- C06 -----------------------------------------------------------------------------------------
+V("C06-a-swap-slopes", "C06", "C06.1", (ITY, "                    self.initial_state + self.dState,\n                    self.initial_rhs,\n                    self.final_rhs\n                ))\n    # ---- #", "                    self.initial_state + self.dState,\n                    self.final_rhs,\n                    self.initial_rhs\n                ))\n    # ---- #"))
+V("C06-b-unpaired-insert", "C06", "C06.4", (DS, "                    self.t_eval.insert(0, D.ar_numpy.asarray(t))\n                    self.y_interpolants.insert(0, y_interp)", "                    self.t_eval.insert(0, D.ar_numpy.asarray(t))\n                    self.y_interpolants.append(y_interp)"))
+V("C06-c-no-direction", "C06", "C06.2", (DS, "        if idx > 0 and self.y_interpolants[idx].trange < 0 and self.t_eval[idx] > t:\n            idx = idx - 1\n", ""))
+V("C06-c2-no-direction-vec", "C06", "C06.2", (DS, "            if idx > 0 and self.y_interpolants[idx].trange < 0 and self.t_eval[idx] > _t:\n                out[pos] = idx - 1\n", "            pass\n"))
+V("C06-d-unkeyed", "C06", "C06.3", (ITY, "if self.final_rhs is not None and self.final_time is not None and bool(D.ar_numpy.all(self.final_time == initial_time)) and bool(D.ar_numpy.all(self.final_state == initial_state)):", "if self.final_rhs is not None:"))
+V("C06-d2-time-only", "C06", "C06.3", (ITY, " and bool(D.ar_numpy.all(self.final_state == initial_state)):", ":"))
+V("C06-e-symp-stale", "C06", "C06.3", (ITY, "        self.initial_rhs = None\n        self.final_rhs = None\n\n        self.step(rhs=rhs", "        self.initial_rhs = None\n\n        self.step(rhs=rhs"))
+V("C06-f-knot", "C06", "C06.1", (ITY, "    def dense_output(self):\n        return (self.initial_time + self.dTime,\n                utilities.interpolation.CubicHermiteInterp(\n                    self.initial_time,\n                    self.initial_time + self.dTime,\n                    self.initial_state,\n                    self.initial_state + self.dState,\n                    self.initial_rhs,\n                    self.final_rhs\n                ))\n    # ---- #",
+   "    def dense_output(self):\n        return (self.initial_time,\n                utilities.interpolation.CubicHermiteInterp(\n                    self.initial_time,\n                    self.initial_time + self.dTime,\n                    self.initial_state,\n                    self.initial_state + self.dState,\n                    self.initial_rhs,\n                    self.final_rhs\n                ))\n    # ---- #"))
+V("C06-g-final-slope-start", "C06", "C06.6", (ITY, "            self.final_rhs = rhs(initial_time + self.dTime, initial_state + self.dState, **constants)\n        self.final_time", "            self.final_rhs = rhs(initial_time + self.dTime, initial_state, **constants)\n        self.final_time"))
+V("C06-h-keys-wrong", "C06", "C06.3", (ITY, "        self.final_time = initial_time + self.dTime\n", "        self.final_time = initial_time\n"))
+V("C06-i-remove-unpaired", "C06", "C06.4", (DS, "out = self.t_eval.pop(idx), self.y_interpolants.pop(idx)", "out = self.t_eval.pop(idx), self.y_interpolants.pop(0)"))
+V("C06-j-end-state", "C06", "C06.1", (ITY, "    def dense_output(self):\n        return (self.initial_time + self.dTime,\n                utilities.interpolation.CubicHermiteInterp(\n                    self.initial_time,\n                    self.initial_time + self.dTime,\n                    self.initial_state,\n                    self.initial_state + self.dState,\n                    self.initial_rhs,\n                    self.final_rhs\n                ))\n\n    def step", "    def dense_output(self):\n        return (self.initial_time + self.dTime,\n                utilities.interpolation.CubicHermiteInterp(\n                    self.initial_time,\n                    self.initial_time + self.dTime,\n                    self.initial_state,\n                    self.dState,\n                    self.initial_rhs,\n                    self.final_rhs\n                ))\n\n    def step"))
+V("C06-s-reorder-sum", "C06", "silent", (ITY, "    def dense_output(self):\n        return (self.initial_time + self.dTime,\n                utilities.interpolation.CubicHermiteInterp(\n                    self.initial_time,\n                    self.initial_time + self.dTime,\n                    self.initial_state,\n                    self.initial_state + self.dState,\n                    self.initial_rhs,\n                    self.final_rhs\n                ))\n    # ---- #",
+   "    def dense_output(self):\n        t_end = self.dTime + self.initial_time\n        return (t_end,\n                utilities.interpolation.CubicHermiteInterp(\n                    self.initial_time,\n                    self.dTime + self.initial_time,\n                    self.initial_state,\n                    self.dState + self.initial_state,\n                    self.initial_rhs,\n                    self.final_rhs\n                ))\n    # ---- #"))
